@@ -26,6 +26,31 @@ theorem collectPV_noRes (f : Expr → PRes) (xs : List Expr) (h : ∀ x, x ∈ x
     | fuel => intro r'; simp
     | panic => intro r'; simp
 
+theorem collectPVKVs_noRes (f : Expr → PRes) (kvs : List (String × Expr)) (h : ∀ kv, kv ∈ kvs → ∀ r, f kv.2 ≠ .res r) :
+    match collectPVKVs f kvs with
+    | .ok pkvs => ∃ vs : List (String × Value), pkvs = vs.map (fun kv => (kv.1, PartialValue.value kv.2))
+    | .error r => ∀ r', r ≠ .res r' := by
+  induction kvs with
+  | nil => exact ⟨[], rfl⟩
+  | cons kv kvs ih =>
+    obtain ⟨k, x⟩ := kv
+    have ih' := ih (fun y hy => h y (List.mem_cons_of_mem _ hy))
+    have hx := h (k, x) (List.mem_cons_self ..)
+    simp only [collectPVKVs]
+    cases hfx : f x with
+    | val v =>
+      simp only
+      cases hc : collectPVKVs f kvs with
+      | error r => rw [hc] at ih'; simpa [Except.map] using ih'
+      | ok pvs =>
+        rw [hc] at ih'
+        obtain ⟨vs, hp⟩ := ih'
+        exact ⟨(k, v) :: vs, by simp [Except.map, hp]⟩
+    | res r => exact absurd hfx (hx r)
+    | err c => intro r'; simp
+    | fuel => intro r'; simp
+    | panic => intro r'; simp
+
 theorem noRes {e : Expr} (hf : Frag e) (req : Request) (es : Entities) (env : SlotEnv) :
     ∀ (m : Mapper) (n : Nat) (r : Expr), pinterp m (.ofConcrete req) (.ofConcrete es) env n e ≠ .res r := by
   induction hf with
@@ -88,7 +113,7 @@ theorem noRes {e : Expr} (hf : Frag e) (req : Request) (es : Entities) (env : Sl
         · simp_all
       · simp_all
       · simp_all
-  | getAttr a _ ihe =>
+  | getAttr a _ _ ihe =>
     intro m n r
     cases n with
     | zero => simp [pinterp]
@@ -105,7 +130,7 @@ theorem noRes {e : Expr} (hf : Frag e) (req : Request) (es : Entities) (env : Sl
         | some d => simp only [attrs_ofConcrete]; cases lookupKV d.attrs a <;> simp
       · simp
       · simp_all
-  | hasAttr a _ ihe =>
+  | hasAttr a _ _ ihe =>
     intro m n r
     cases n with
     | zero => simp [pinterp]
@@ -165,5 +190,21 @@ theorem noRes {e : Expr} (hf : Frag e) (req : Request) (es : Entities) (env : Sl
         obtain ⟨vs, hp⟩ := hc
         simp only [hp, splitPV_values, pcallExt_ne_unknown hfn]
         cases callExt fn vs <;> simp [PRes.ofResult]
+  | @record kvs _ ih =>
+    intro m n r
+    cases n with
+    | zero => simp [pinterp]
+    | succ n =>
+      have hc := collectPVKVs_noRes (pinterp m (.ofConcrete req) (.ofConcrete es) env n) kvs (fun kv hkv r => ih kv hkv m n r)
+      simp only [pinterp]
+      cases hcc : collectPVKVs (pinterp m (.ofConcrete req) (.ofConcrete es) env n) kvs with
+      | error r' => rw [hcc] at hc; exact hc r
+      | ok pkvs =>
+        rw [hcc] at hc
+        obtain ⟨vs, hp⟩ := hc
+        have h1 : pkvs.map (·.2) = (vs.map Prod.snd).map PartialValue.value := by
+          rw [hp]; simp [List.map_map, Function.comp_def]
+        simp only [h1, splitPV_values]
+        simp
 
 end Cedar
